@@ -128,19 +128,9 @@ Definition add_fti_raptorq (data : list N) (o : oti) (tl : N) : res (list N) :=
   | Some _ => Panic
   end.
 
-(* alcraptor.rs:14-54.  current code (after fixes/D30): the RFC 5053 figure
-     | Transfer Length (48) | Reserved (16) | Symbol Size (16) | Z (16) | N (8) | Al (8) |
-   before the fix the RaptorQ figure was used (40-bit length, 8 reserved, 16 padding) *)
+(* alcraptor.rs:14-54 : the code uses the RaptorQ figure (40-bit length, 8 reserved bits, T, then
+   Z (16) N (8) Al (8) and 16 bits of padding), not the RFC 5053 3.2.2/3.2.3 figure (recorded finding D32) *)
 Definition add_fti_raptor (data : list N) (o : oti) (tl : N) : res (list N) :=
-  let transfer_header := (tl * 65536) mod TWO64 in
-  match o_ss o with
-  | None => Panic
-  | Some (SSRaptor z n al) =>
-    push_ext data (fti_header16 4 ++ be_encode 8 transfer_header ++ be_encode 2 (o_E o)
-                   ++ be_encode 2 z ++ [n] ++ [al]) 4
-  | Some _ => Panic
-  end.
-Definition add_fti_raptor_unfixed (data : list N) (o : oti) (tl : N) : res (list N) :=
   let transfer_header := N.lor ((tl * 16777216) mod TWO64) (N.land (o_E o) 65535) in
   match o_ss o with
   | None => Panic
@@ -226,23 +216,8 @@ Definition parse_fti_raptorq (fti : list N) : res (oti * N) :=
       Ok ({| o_fec := RaptorQ; o_inst := 0; o_B := b; o_E := t; o_parity := 0;
              o_ss := Some (SSRaptorQ z n al); o_inband_fti := true |}, tl).
 
-(* current code (after fixes/D30): RFC 5053 figure *)
+(* alcraptor.rs:57-110 : reads the figure add_fti_raptor writes (D32) *)
 Definition parse_fti_raptor (fti : list N) : res (oti * N) :=
-  if negb (length fti =? 16)%nat then Err
-  else
-    let tl := N.shiftr (be_decode (slice fti 2 10)) 16 in
-    let t := be_decode (slice fti 10 12) in
-    let z := be_decode (slice fti 12 14) in
-    let n := byte_or0 fti 14 in
-    let al := byte_or0 fti 15 in
-    if t =? 0 then Err else if z =? 0 then Err else if al =? 0 then Err
-    else if negb (t mod al =? 0) then Err
-    else
-      let block_size := div_ceil_u tl z in
-      let b := (div_ceil_u block_size t) mod U32 in
-      Ok ({| o_fec := Raptor; o_inst := 0; o_B := b; o_E := t; o_parity := 0;
-             o_ss := Some (SSRaptor z n al); o_inband_fti := true |}, tl).
-Definition parse_fti_raptor_unfixed (fti : list N) : res (oti * N) :=
   if negb (length fti =? 16)%nat then Err
   else
     let tl := N.shiftr (be_decode (slice fti 2 10)) 24 in
